@@ -22,7 +22,7 @@ bool run_case(const std::string &text, std::string &sig, bool &nontrivial) {
 int main(int argc, char **argv) {
   ares_library_init_mem(ARES_LIB_INIT_ALL, ledger_malloc, ledger_free, ledger_realloc);
   std::vector<Mode> modes;
-  for (const char *p : {"C01", "C05", "C06", "C07", "C08", "C09", "C10", "C12", "C13", "C17", "C20"}) {
+  for (const char *p : {"C01", "C05", "C06", "C07", "C08", "C09", "C10", "C12", "C13", "C14", "C17", "C20"}) {
     std::string prop = p;
     modes.push_back({prop, [prop] {
       auto bytes = rc::gen::scale(4.0, rc::gen::container<std::vector<uint8_t>>(rc::gen::arbitrary<uint8_t>()));
